@@ -151,7 +151,7 @@ def name_jobs(tier):
     for L in (range(1, 9) if tier == "quick" else range(1, 13)):
         J.append(dict(name="name_skipref_L%d" % L, harness="name_parse.c",
                       defines=["-DL=%d" % L, "-DMODE=0", "-DREF=1", "-DVP_SIZES=%d,48" % L],
-                      real=NAME_LIB, support=SUP, unwind=2 * L + 4, unwindset=["ares_dns_name_parse.0:%d" % name_loop_bound(L)],
+                      real=NAME_LIB, support=SUP, unwind=2 * L + 4, termination_loops=["ares_dns_name_parse.0"], unwindset=["ares_dns_name_parse.0:%d" % name_loop_bound(L)],
                       leak=True, witnesses=["end", "accepted", "rejected"],
                       bound="ares_dns_name_parse(name=NULL) on an exact-size %d-byte object, ALL bytes arbitrary, any start "
                             "offset 0..%d, both is_hostname values; main loop bound %d unwindings; verdict and end cursor compared with a "
@@ -159,7 +159,7 @@ def name_jobs(tier):
     for L in (range(9, 13) if tier == "quick" else range(9, 19)):
         J.append(dict(name="name_skip_L%d" % L, harness="name_parse.c",
                       defines=["-DL=%d" % L, "-DMODE=0", "-DREF=0", "-DVP_SIZES=%d,48" % L],
-                      real=NAME_LIB, support=SUP, unwind=L + 4, unwindset=["ares_dns_name_parse.0:%d" % name_loop_bound(L)],
+                      real=NAME_LIB, support=SUP, unwind=L + 4, termination_loops=["ares_dns_name_parse.0"], unwindset=["ares_dns_name_parse.0:%d" % name_loop_bound(L)],
                       leak=True, witnesses=["end", "accepted", "rejected"],
                       bound="ares_dns_name_parse(name=NULL) on an exact-size %d-byte object, ALL bytes arbitrary, any start "
                             "offset 0..%d, both is_hostname values; main loop bound %d unwindings; totality, bounds, status/"
@@ -169,7 +169,7 @@ def name_jobs(tier):
         J.append(dict(name="name_out_L%d" % L, harness="name_parse.c",
                       defines=["-DL=%d" % L, "-DMODE=1", "-DREF=1", "-DC02_ALLOC"],
                       real=NAME_LIB, support=SUP_POOL, unwind=5 * L + 8,
-                      unwindset=["ares_dns_name_parse.0:%d" % name_loop_bound(L),
+                      termination_loops=["ares_dns_name_parse.0"], unwindset=["ares_dns_name_parse.0:%d" % name_loop_bound(L),
                                  "ares_fetch_dnsname_into_buf.0:%d" % max(L, 2), "ares_buf_ensure_space.0:2"],
                       leak=True, witnesses=["end", "accepted", "rejected"], fs_array=8,
                       bound="ares_dns_name_parse(name!=NULL) on an exact-size %d-byte object, ALL bytes arbitrary, any start "
@@ -228,7 +228,7 @@ def legacy_jobs(tier):
         J.append(dict(name="expand_name_skip_L%d" % L, harness="name_parse.c",
                       defines=["-DL=%d" % L, "-DAPI=1", "-DMODE=0", "-DREF=1", "-DVP_SIZES=%d,48" % L],
                       real=LEGACY_LIB, support=SUP, unwind=2 * L + 4,
-                      unwindset=["ares_dns_name_parse.0:%d" % name_loop_bound(L)],
+                      termination_loops=["ares_dns_name_parse.0"], unwindset=["ares_dns_name_parse.0:%d" % name_loop_bound(L)],
                       leak=True, witnesses=["end", "accepted", "rejected", "api-rejected"],
                       bound="ares_expand_name(abuf+off, abuf, alen, NULL, &enclen): abuf an exact-size %d-byte object, all "
                             "bytes arbitrary, off 0..%d (incl. one-past-end), alen == %d or any value <= 0; compared with the "
@@ -238,7 +238,7 @@ def legacy_jobs(tier):
         J.append(dict(name="expand_name_out_L%d" % L, harness="name_parse.c",
                       defines=["-DL=%d" % L, "-DAPI=1", "-DMODE=1", "-DREF=1", "-DC02_ALLOC"],
                       real=LEGACY_LIB, support=SUP_POOL, unwind=5 * L + 8,
-                      unwindset=["ares_dns_name_parse.0:%d" % name_loop_bound(L),
+                      termination_loops=["ares_dns_name_parse.0"], unwindset=["ares_dns_name_parse.0:%d" % name_loop_bound(L),
                                  "ares_fetch_dnsname_into_buf.0:%d" % max(L, 2), "ares_buf_ensure_space.0:2"],
                       leak=True, witnesses=["end", "accepted", "rejected", "api-rejected"], fs_array=8,
                       bound="ares_expand_name(..., &s, &enclen) on an exact-size %d-byte object, all bytes arbitrary, any "
